@@ -15,7 +15,7 @@ from runner import enc, Infra
 from engines import warc_common as wc
 
 RULE = ('recorder: configurations (gzip, digests, max_size rollover incl. 0, appending second life, log record, extra warcinfo '
-        'fields incl. >1024 chars / CRLF / non-ASCII, revisit table) x 1-8 interleaved HTTP/FTP recorder sessions; response '
+        'fields incl. >1024 chars / short values with CR, LF, CRLF, TAB, VT, FF / non-ASCII, revisit table) x 1-8 interleaved HTTP/FTP recorder sessions; response '
         'header blocks with CRLF/LF/mixed line ends, odd spacing, folding, colon-less lines, duplicates, 0-40 fields, >4 KiB, '
         'bodies empty/binary/blank-line-led/chunked+trailer/4096-boundary; nvr/ser: field names from NAME_OVERRIDES in random '
         'case + custom names, values incl. empty, non-ASCII, surrogates; offset: byte strings over {CR, LF, other}. '
